@@ -39,6 +39,14 @@ void ob_c04i_roll(const ARR<2,3>& a)
     { VIEW(v, view::roll(a, -1, -1)); EXPECT_VIEW2("C04.view.roll.shape", "C04.view.roll.negative_axis", v, 2,3, a(i, (j+1)%3), 3); }
     { VIEW(v, view::roll(a, 2)); EXPECT_VIEW2("C04.view.roll.shape", "C04.view.roll.no_axis_rolls_the_flattened_array", v, 2,3, a(((i*3+j)+4)%6/3, ((i*3+j)+4)%6%3), 4); }
     { VIEW(v, view::roll(a, std::array<int,2>{1,1}, std::array<int,2>{0,1})); EXPECT_VIEW2("C04.view.roll.shape", "C04.view.roll.several_axes", v, 2,3, a((i+1)%2, (j+2)%3), 5); }
+    { VIEW(v, view::roll(a, 1, std::array<int,2>{0,1})); EXPECT_VIEW2("C04.view.roll.shape", "C04.view.roll.scalar_shift_applies_to_every_listed_axis", v, 2,3, a((i+1)%2, (j+2)%3), 6); }
+    { VIEW(v, view::roll(a, -1, std::array<int,2>{-1,0})); EXPECT_VIEW2("C04.view.roll.shape", "C04.view.roll.scalar_shift_applies_to_every_listed_axis", v, 2,3, a((i+1)%2, (j+1)%3), 7); }
+}
+// (bounded lists of length 2 are decided at index level - c04_select ob_c04_roll_list - the view-level form exceeds what LLVM folds)
+void ob_c04i_roll_bounded1(const ARR<2,3>& a)
+{ PIN(a, 2,3);
+    { nmtools_static_vector<int,2> ax; ax.resize(1); ax[0] = -1;
+      VIEW(v, view::roll(a, 2, ax)); EXPECT_VIEW2("C04.view.roll.shape", "C04.view.roll.scalar_shift_applies_to_every_listed_axis.bounded_axis_list", v, 2,3, a(i, (j+1)%3), 9); }
 }
 // ---- take
 void ob_c04i_take(const ARR<3,2>& a)
